@@ -3,6 +3,8 @@ use std::fmt::Write;
 pub struct EmmyLuaEmitter {
     output: String,
     write_file: bool,
+    /// Number of variants written for the alias that is currently open.
+    alias_variants: usize,
 }
 
 impl EmmyLuaEmitter {
@@ -10,6 +12,7 @@ impl EmmyLuaEmitter {
         Self {
             output: String::new(),
             write_file,
+            alias_variants: 0,
         }
     }
 
@@ -26,7 +29,7 @@ impl EmmyLuaEmitter {
 
     /// Write a doc comment line: `--- text`.
     pub fn write_doc_comment(&mut self, text: &str) {
-        for line in text.lines() {
+        for line in comment_lines(text) {
             let _ = writeln!(self.output, "--- {}", line);
         }
     }
@@ -58,14 +61,19 @@ impl EmmyLuaEmitter {
     pub fn write_field(&mut self, name: &str, ty: &str, description: Option<&str>) {
         // Emit description above the field
         if let Some(desc) = description {
-            for line in desc.lines() {
-                let _ = writeln!(self.output, "--- {}", line);
-            }
+            self.write_doc_comment(desc);
         }
 
         // Use ["name"] form for field names with special characters
         let formatted_name = if needs_bracket_notation(name) {
-            format!("[\"{}\"]", name)
+            match string_literal(name) {
+                Some(literal) => format!("[{}]", literal),
+                None => {
+                    // no way to spell this name in an annotation
+                    let _ = writeln!(self.output, "--- (a field whose name cannot be written in an annotation was skipped)");
+                    return;
+                }
+            }
         } else {
             name.to_string()
         };
@@ -73,8 +81,17 @@ impl EmmyLuaEmitter {
         let _ = writeln!(self.output, "---@field {} {}", formatted_name, ty);
     }
 
+    /// Write `---@field [key_type] value_type` (index signature).
+    pub fn write_index_field(&mut self, key_ty: &str, value_ty: &str, description: Option<&str>) {
+        if let Some(desc) = description {
+            self.write_doc_comment(desc);
+        }
+        let _ = writeln!(self.output, "---@field [{}] {}", key_ty, value_ty);
+    }
+
     /// Write `---@alias AliasName`.
     pub fn write_alias_header(&mut self, name: &str) {
+        self.alias_variants = 0;
         let _ = writeln!(
             self.output,
             "---@alias{} {}",
@@ -85,25 +102,26 @@ impl EmmyLuaEmitter {
 
     /// Write `---| "value" # description`.
     pub fn write_alias_variant(&mut self, value: &str, description: Option<&str>) {
-        match description {
-            Some(desc) => {
-                let _ = writeln!(self.output, "---| \"{}\" # {}", value, desc);
-            }
-            None => {
-                let _ = writeln!(self.output, "---| \"{}\"", value);
-            }
-        }
+        self.write_alias_type_variant(&string_literal_type(value), description);
     }
 
     /// Write `---| type # description` (for non-string union members).
     pub fn write_alias_type_variant(&mut self, ty: &str, description: Option<&str>) {
+        self.alias_variants += 1;
         match description {
             Some(desc) => {
-                let _ = writeln!(self.output, "---| {} # {}", ty, desc);
+                let _ = writeln!(self.output, "---| {} # {}", ty, one_line(desc));
             }
             None => {
                 let _ = writeln!(self.output, "---| {}", ty);
             }
+        }
+    }
+
+    /// Close the alias opened by `write_alias_header`: an alias without variants is `any`.
+    pub fn end_alias(&mut self) {
+        if self.alias_variants == 0 {
+            self.write_alias_type_variant("any", None);
         }
     }
 
@@ -116,6 +134,51 @@ impl EmmyLuaEmitter {
     pub fn finish(self) -> String {
         self.output
     }
+}
+
+/// A class or alias name built from arbitrary text: characters that cannot be part of a type name
+/// become `_`, and the name never starts with a digit or punctuation.
+pub fn type_name(prefix: &str, name: &str) -> String {
+    let mut result = String::new();
+    for ch in prefix.chars().chain(name.chars()) {
+        let keep = ch.is_alphanumeric()
+            || ch == '_'
+            || (ch == '.' && !result.is_empty() && !result.ends_with('.'));
+        result.push(if keep { ch } else { '_' });
+    }
+    if !result.starts_with(|ch: char| ch.is_alphabetic() || ch == '_') {
+        result.insert(0, '_');
+    }
+    result
+}
+
+/// A string literal as annotations spell it: `"text"`, or `'text'` when the text contains `"`.
+/// There are no escapes, so text with both kinds of quotes or a line break has no literal form.
+pub fn string_literal(text: &str) -> Option<String> {
+    if text.contains(['\n', '\r', '\0']) {
+        None
+    } else if !text.contains('"') {
+        Some(format!("\"{}\"", text))
+    } else if !text.contains('\'') {
+        Some(format!("'{}'", text))
+    } else {
+        None
+    }
+}
+
+/// The type of one string value: its literal, or `string` when it has no literal form.
+pub fn string_literal_type(text: &str) -> String {
+    string_literal(text).unwrap_or_else(|| "string".to_string())
+}
+
+/// The lines of a description; `\r\n`, `\n` and a lone `\r` all end a line.
+fn comment_lines(text: &str) -> impl Iterator<Item = &str> {
+    text.lines().flat_map(|line| line.split(['\r', '\0']))
+}
+
+/// A description that has to stay on the line it is written on.
+fn one_line(text: &str) -> String {
+    comment_lines(text).collect::<Vec<_>>().join(" ")
 }
 
 /// Check if a field name needs bracket notation (contains special characters).
